@@ -9,7 +9,7 @@ ASSUMPTIONS = [
     'C03: an empty function is never invoked (it raises bad_function_call); the address of the stored target is taken from the capture while it is invoked (no target() accessor exists)',
     'C03: a moved-from function is valid: what operator bool reports is what is alive; it is assignable and destructible (tetl leaves it empty)',
 ]
-ALL = ['make', 'make_lvalue', 'copy_ctor', 'move_ctor', 'conv_copy', 'conv_move', 'assign_nullptr', 'assign_callable', 'assign_self', 'assign_conv', 'move_assign_self', 'swap_self',
+ALL = ['make', 'make_lvalue', 'copy_ctor', 'move_ctor', 'conv_copy', 'conv_move', 'assign_nullptr', 'assign_callable', 'assign_self', 'assign_conv', 'move_assign_self', 'swap_self', 'swap_self_empty',
        'assign_copy', 'assign_move', 'swap', 'swap_free']
 UW = {'ll_memset.0': 130, 'll_memcpy.0': 130, 'll_memmove.0': 130, 'll_memmove.1': 130, 'll_undef_bytes.0': 66}
 for f_, n_ in (('d_sym_block', 40), ('lg_register', 18), ('lg_expect', 18), ('lg_marks', 70)):
@@ -21,6 +21,8 @@ def queries(tier, prop='C03'):
     out = []
     for fl in ((0, 2) if not ub else (0,)):
         for e in ALL:
-            out.append(dict(entry='q_f_' + e, cfg={'FLAV': fl}, unwind=24, unwindset=UW, budget=120 if tier == 'quick' else 600, ub=ub, nofunc=ub))
+            q = dict(entry='q_f_' + e, cfg={'FLAV': fl}, unwind=24, unwindset=UW, budget=120 if tier == 'quick' else 600, ub=ub, nofunc=ub)
+            if e == 'swap_self': q['kf_only'] = 'C03_inplace_function_self_swap'   # the whole query lies inside the known-finding region
+            out.append(q)
     for q_ in out: q_['lazy_trace'] = True   # verdict first, counterexample trace only when an obligation fails (engine/runner.py)
     return out
